@@ -49,6 +49,7 @@ type worldConfig struct {
 	RetryCount int         `json:"retry_count"`
 	NActions   int         `json:"n_actions"`
 	NWorkers   int         `json:"n_workers"`
+	Routers    []queueSpec `json:"routers,omitempty"` // only Prefix and Platform are used
 }
 
 const (
@@ -202,6 +203,16 @@ func invocationKeyFor(v string) string {
 	return string(k)
 }
 
+type constKeyExtractor struct{ v string }
+
+func (e constKeyExtractor) ExtractKey(ctx context.Context, md *remoteexecution.RequestMetadata) (invocation.Key, error) {
+	a, err := anypb.New(wrapperspb.String(e.v))
+	if err != nil {
+		return "", err
+	}
+	return invocation.NewKey(a)
+}
+
 // ---------------------------------------------------------------- construction
 
 func newWorld(rt *rapid.T, cfg worldConfig) *world {
@@ -211,7 +222,24 @@ func newWorld(rt *rapid.T, cfg worldConfig) *world {
 	for i := 0; i < cfg.InvDepth; i++ {
 		extractors = append(extractors, pathKeyExtractor{level: i})
 	}
-	router := routing.NewSimpleActionRouter(platform.ActionKeyExtractor, extractors, w.an)
+	var router routing.ActionRouter = routing.NewSimpleActionRouter(platform.ActionKeyExtractor, extractors, w.an)
+	if len(cfg.Routers) > 0 {
+		// C05: requests are demultiplexed over several action routers by
+		// instance name prefix and platform; each router stamps its
+		// identity into the first invocation key, which makes the choice
+		// observable through the operation's invocation name.
+		mk := func(marker string) routing.ActionRouter {
+			ex := append([]invocation.KeyExtractor{constKeyExtractor{marker}}, extractors...)
+			return routing.NewSimpleActionRouter(platform.ActionKeyExtractor, ex, w.an)
+		}
+		demux := routing.NewDemultiplexingActionRouter(platform.ActionKeyExtractor, mk("r-default"))
+		for i, r := range cfg.Routers {
+			if err := demux.RegisterActionRouter(util.Must(digest.NewInstanceName(r.Prefix)), platforms[r.Platform], mk(fmt.Sprintf("r%d", i))); err != nil {
+				panic(fmt.Sprintf("harness: cannot register action router %+v: %v", r, err))
+			}
+		}
+		router = demux
+	}
 	uuids := &counterUUIDs{}
 	w.bq = scheduler.NewInMemoryBuildQueue(w.cas, w.clk, uuids.next, &scheduler.InMemoryBuildQueueConfiguration{
 		ExecutionUpdateInterval:              updateInterval,
